@@ -147,9 +147,21 @@ func genLoop(r *rand.Rand, b *strings.Builder, id *int, depth int, outerVar stri
 	if stepParam {
 		stepExpr = "st"
 	}
+	sharedDecl := ""
+	if typ == "int" && !stepParam && r.Intn(5) == 0 {
+		// a local holding a constant: go/ssa lifts it to ONE shared constant object that is
+		// the step (and, counting down, also the bound) of the loop
+		sk := fmt.Sprintf("sk%d", L)
+		sharedDecl = fmt.Sprintf("%s := %d", sk, k+1)
+		stepExpr = sk
+		if !up {
+			bound = sk
+			m.Bound = bound
+		}
+	}
 	m.Step = map[bool]string{true: "+", false: "-"}[up] + stepExpr
 	post := fmt.Sprintf("%s %s= %s", v, map[bool]string{true: "+", false: "-"}[up], stepExpr)
-	if k == 1 && !stepParam && r.Intn(2) == 0 {
+	if k == 1 && !stepParam && sharedDecl == "" && r.Intn(2) == 0 {
 		post = v + map[bool]string{true: "++", false: "--"}[up]
 	}
 	w := func(format string, a ...any) { b.WriteString(ind); fmt.Fprintf(b, format, a...); b.WriteString("\n") }
@@ -205,6 +217,12 @@ func genLoop(r *rand.Rand, b *strings.Builder, id *int, depth int, outerVar stri
 		form = "top" // `continue` would skip the update of a bottom-tested loop
 	}
 	m.Form = form
+	if sharedDecl != "" {
+		w("%s", sharedDecl)
+		if m.Extra == "second-iv" {
+			extraUpd = fmt.Sprintf("d%d -= %s", L, stepExpr)
+		}
+	}
 	w("enter(%d)", L)
 	if extraDecl != "" {
 		w("%s", extraDecl)
